@@ -26,7 +26,7 @@ input Obj { x: Int y: [Int] z: Obj }
 directive @dir(i: Int, d: Int = 7, l: [Int], o: Obj, a: Any, e: E = RED, fl: Float, id: ID, fls: [Float]) on FIELD | QUERY | FRAGMENT_SPREAD | INLINE_FRAGMENT | FRAGMENT_DEFINITION
 type Query {
   f(i: Int, d: Int = 7, l: [Int], o: Obj, a: Any, e: E = RED, fl: Float, id: ID, fls: [Float]): Int
-  g(u1: Int, u2: Int, u3: Int): Int
+  g(u1: Int, u2: Int, u3: Int, u4: [Int]): Int
 }
 `
 
@@ -53,7 +53,7 @@ input Obj { x: Int y: [Int] z: Obj }
 directive @dir(i: Int = 11, d: Int = 8, l: [Int], o: Obj, a: Any, e: E = GREEN, fl: Float, id: ID, fls: [Float]) on FIELD | QUERY | FRAGMENT_SPREAD | INLINE_FRAGMENT | FRAGMENT_DEFINITION
 type Query {
   f(i: Int = 11, d: Int = 8, l: [Int], o: Obj, a: Any, e: E = GREEN, fl: Float, id: ID, fls: [Float]): Int
-  g(u1: Int, u2: Int, u3: Int): Int
+  g(u1: Int, u2: Int, u3: Int, u4: [Int]): Int
 }
 `
 
@@ -223,7 +223,7 @@ func argRows(c *core.Ctx, devs string, schema, first *ast.Schema, bigOpen bool) 
 			nontrivial++
 		}
 		// the directive stands at every executable location that takes one, twice on spreads of the same fragment
-		q := "query($p: Int, $q: Int = 3, $n: Int = null) @dir" + argText + " { f" + argText + " @dir" + argText + " g(u1: $p, u2: $q, u3: $n) ...F @dir" + argText +
+		q := "query($p: Int, $q: Int = 3, $n: Int = null, $e: [Int] = []) @dir" + argText + " { f" + argText + " @dir" + argText + " g(u1: $p, u2: $q, u3: $n, u4: $e) ...F @dir" + argText +
 			" ... on Query @dir" + argText + " { __typename } ...F @dir" + argText + " } fragment F on Query @dir" + argText + " { __typename }"
 		big := len(ac.Use) > 0 && (hasKind(ac.Use[0], "bigint") || hasKind(ac.Use[0], "bigfloat"))
 		// one parsed and validated document per text, shared by all rows that differ only in the supplied
